@@ -164,7 +164,7 @@ def _show(n):
     if k == "unary":
         return "%s%s" % (n["op"], _show(n["e"]))
     if k == "ref":
-        return "&%s%s" % ("mut " if n.get("mut") else "", _show(n["e"]))
+        return "&%s%s" % ("mut " if n.get("mut") else "", _show(n.get("e", n.get("pat"))))
     if k == "field":
         return "%s.%s" % (_show(n["e"]), n["name"])
     if k == "index":
